@@ -105,8 +105,9 @@ OpCases == {[kind |-> "op", op |-> o, l |-> l, r |-> r, ctx |-> c] :
 XLib == <<"export class Pt {", "	q: str", "	constructor(self, q: str) {", "		self.q = q", "	}", "}",
           \* a class that is *not* exported, declared after an exported one
           "class Hidden {", "	z: int", "	constructor(self) {", "		self.z = 1", "	}", "}",
+          "const hidden_k: int = 3",          \* a constant that is not exported
           "export mkpt: fn() -> Pt = fn() -> Pt { return Pt(\"o\") }">>
-XSites == {"arg", "init", "reassign", "ret", "field", "hidden_member", "hidden_import"}
+XSites == {"arg", "init", "reassign", "ret", "field", "hidden_member", "hidden_import", "hidden_const_member", "hidden_const_import"}
 XLines(site, bad) ==
     LET v == IF bad THEN "lib.mkpt()" ELSE "Pt(2)" IN
     CASE site = "arg" -> <<"taker = fn(p: Pt) -> int { return p.q }", "flt = taker(" \o v \o ")" \o (IF bad THEN M ELSE "")>>
@@ -115,12 +116,14 @@ XLines(site, bad) ==
       [] site = "ret" -> <<"flt = fn() -> Pt { return " \o v \o " }" \o (IF bad THEN M ELSE "")>>
       [] site = "hidden_member" -> IF bad THEN <<"flt = lib.Hidden()" \o M>> ELSE <<"flt = lib.Pt(\"n\")">>
       [] site = "hidden_import" -> IF bad THEN <<"import Hidden from lib" \o M>> ELSE <<"import mkpt from lib">>
+      [] site = "hidden_const_member" -> IF bad THEN <<"flt = lib.hidden_k" \o M>> ELSE <<"flt = lib.mkpt">>
+      [] site = "hidden_const_import" -> IF bad THEN <<"import hidden_k from lib" \o M>> ELSE <<"import mkpt from lib">>
       [] site = "field" -> <<"class Holder {", "	p: Pt", "	constructor(self) {", "		self.p = Pt(1)", "	}", "}", "hd = Holder()", "hd.p = " \o v \o (IF bad THEN M ELSE "")>>
 
 VARIABLE x
 Init == x \in {y \in TypedCases : TypedValid(y)}
            \cup ({[kind |-> "xmod", site |-> st, ctx |-> c] : st \in XSites, c \in {"module", "fn"}}
-                 \ {[kind |-> "xmod", site |-> "hidden_import", ctx |-> "fn"]})
+                 \ {[kind |-> "xmod", site |-> st, ctx |-> "fn"] : st \in {"hidden_import", "hidden_const_import"}})
            \cup {[kind |-> "fixed", f |-> f, ctx |-> c] : f \in Fixed, c \in Contexts}
            \cup {y \in OpCases : OpUnsupported(y.op, y.l, y.r)}
 Next == UNCHANGED x
